@@ -7,6 +7,12 @@ recodings (value-level).  Decided here (necessary conditions, may-analyses on th
  COVER.read    in every scalar-multiplication routine (serial and AVX2 copies, all five basepoint-table radices, Straus,
                Pippenger per window width, precomputed Straus, vartime double-base, variable-base), every digit position
                that the recoder called there may leave non-zero is read by some execution of the routine.
+ LINCOMB       formal-linear-combination domain (lib/eng_lincomb.py): with group operations abstracted by their algebraic meaning, recodings
+               by arrays of symbolic digits d_i and lookup-table contents *computed* from the tables' own constructors, each routine returns
+               exactly  sum_i 2^(w*i) * d_i * P  (per scalar/point pair): variable-base (serial, AVX2), the five basepoint tables (create +
+               mul_base), vartime double-base (serial, AVX2; with and without precomputed tables), Straus constant-time and variable-time
+               (serial, AVX2; three concrete pairs), precomputed Straus (new + mixed; two static, one dynamic pair).  Pippenger (bucket
+               method) and the Montgomery ladder are not in this domain.  Decides the Horner / table structure, NOT the group law.
  NONE          every optional_* multiscalar routine (serial and AVX2 Straus and Pippenger, precomputed Straus, the EdwardsPoint /
                RistrettoPoint front ends), analysed with a non-empty collection in which every point is None, can only return None:
                a missing point is never skipped.  (The converse - only Some points give Some - is checked as "Some is reachable".)
@@ -72,6 +78,8 @@ def run(tier, R):
         cover_write(F, R, Iq, backend)
         cover_read(F, R, Iq, backend)
         none_rule(F, R, Iq, backend, tier)
+        if cfg in ("simd", "notables", "ifma") or tier == "thorough":
+            lincomb(F, R, Iq, cfg)
 
 
 # ------------------------------------------------------------------------------------------------------------ COVER.write
@@ -129,7 +137,7 @@ def cover_read(F, R, I_, backend):
     # configuration (e.g. the serial copies under run-time dispatch are reached: the dispatcher has a serial arm) need no extra roots
     for f in sorted(roots, key=lambda f: f["key"]):
         D.run_root(f, check_ret=False)
-    R.floor("C04.cover.read", I_("scalar-multiplication entry points analysed"), len(D.roots_run), 25)
+    R.floor("C04.cover.read", I_("scalar-multiplication entry points analysed"), len(D.roots_run), 25 if F.has_cfg("feature=precomputed-tables") else 15)
     for f, why in D.errors:
         R.viol("C04.cover.read", I_("analysis:" + f["path"][-60:]), "analysis did not complete: %s" % why, F.loc(f))
     # reads per (group, N)
@@ -220,3 +228,112 @@ def none_rule(F, R, I_, backend, tier):
                 else:
                     R.viol("C04.none", inst, "the routine cannot return Some even when every point is Some", F.loc(f))
     R.floor("C04.none", I_("optional multiscalar routines"), n, 5)
+
+
+# ------------------------------------------------------------------------------------------------------------ LINCOMB
+def lincomb(F, R, I_, cfg):
+    import eng_lincomb as LC
+    from absint import I as Iv
+
+    def vals(xs):
+        return ("it", "vals", ("arr", tuple(xs)), Iv(0), Iv(len(xs)))
+
+    def some(x):
+        return ("en", ((1, (x,)),))
+
+    def fns(rx, min_blocks=4):
+        return [f for f in F.fns.values() if "mir" in f and re.search(rx, f["path"]) and len(f["mir"]["blocks"]) >= min_blocks and f["kind"] != "Closure"]
+
+    def width(tokid):
+        return {"as_radix_16": 4}.get(tokid[1], tokid[2])
+
+    def check(inst, f, args, pairs, unwrap=False, self_from=None):
+        """pairs: [(point symbol, scalar id)] expected  sum_pairs sum_i 2^(w i) d_{scalar,i} * point  with w the width the routine recoded that scalar with"""
+        try:
+            ret, ip = LC.run(F, f, args)
+        except Exception as e:
+            R.viol("C04.lincomb", I_(inst), "analysis failed: %r" % (e,), F.loc(f))
+            return None
+        if unwrap and ret is not None and ret[0] == "en":
+            ok_some = [fs[0] for v, fs in ret[1] if v == 1 and fs]
+            if {v for v, _ in ret[1]} != {1} or not ok_some:
+                R.viol("C04.lincomb", I_(inst), "with every point present the routine does not definitely return Some", F.loc(f))
+                return None
+            ret = ok_some[0]
+        t = LC.terms(ret)
+        bad_tables = [d for ok, d in ip.models.table_checks if not ok]
+        rec = {sid: (kind, w) for kind, w, sid in getattr(ip.models, "recodings", [])}
+        if t is None:
+            R.viol("C04.lincomb", I_(inst), "the result is not a linear combination of the inputs in the abstract domain (%s)" % ("; ".join(sorted(set(bad_tables))) or "an operation outside the modelled group operations reached the result"), F.loc(f))
+            return None
+        exp = {}
+        for psym, sid in pairs:
+            if sid not in rec:
+                R.viol("C04.lincomb", I_(inst), "scalar %s is never recoded" % sid, F.loc(f))
+                return None
+            kind, w = rec[sid]
+            wbits = 4 if kind == "as_radix_16" else (1 if kind == "non_adjacent_form" else w)
+            n = 256 if kind == "non_adjacent_form" else (64 if kind == "as_radix_16" else (256 + w - 1) // w + (1 if w == 8 else 0))
+            for i in range(n):
+                exp[(psym, ((sid, kind, w), i))] = 2 ** (wbits * i)
+        # digits beyond the recoding's length never occur (they are zero): only the expected support is compared
+        got = {k: c for k, c in t.items()}
+        missing = [k for k in exp if got.get(k) != exp[k]]
+        extra = [k for k in got if k not in exp]
+        if not missing and not extra and not bad_tables:
+            R.ok("C04.lincomb", I_(inst), "= sum 2^(w i) d_i P over %d digit terms (%d group operations, tables: %s)" % (len(exp), ip.models.group_ops, "; ".join(sorted({d for _, d in ip.models.table_checks})) or "none"))
+        else:
+            k = (missing or extra)[0]
+            R.viol("C04.lincomb", I_(inst), "the routine does not compute sum 2^(w i) d_i P: %d terms wrong or missing, %d unexpected (first: point %s, digit %s of %s: coefficient %s, expected %s)%s" % (
+                len(missing), len(extra), k[0], k[1][1] if k[1] else None, k[1][0][0] if k[1] else None, got.get(k), exp.get(k), ("; " + "; ".join(sorted(set(bad_tables)))) if bad_tables else ""), F.loc(f))
+        return ret
+
+    n = 0
+    vec = r"(spec_avx2|spec_avx512ifma_avx512vl)"
+    # variable base
+    for f in fns(r"serial::scalar_mul::variable_base::mul$") + fns(r"vector::scalar_mul::variable_base::%s::mul(::_impl_mul)?$" % vec, 6):
+        n += 1
+        check("variable_base:" + tag(f), f, [LC.sym("P"), ("scal", "s")], [("P", "s")])
+    # vartime double base
+    for f in fns(r"serial::scalar_mul::vartime_double_base::mul$") + fns(r"vector::scalar_mul::vartime_double_base::%s::mul(::_impl_mul)?$" % vec, 10):
+        n += 1
+        check("vartime_double_base:" + tag(f), f, [("scal", "a"), LC.sym("A"), ("scal", "b")], [("A", "a"), ("B", "b")])
+    # Straus
+    for f in fns(r"scalar_mul::straus::(%s::)?Straus as .*traits::MultiscalarMul>::multiscalar_mul(::.*_impl_multiscalar_mul)?$" % vec, 8):
+        n += 1
+        check("straus_ct:" + tag(f), f, [vals([("scal", "s%d" % k) for k in range(3)]), vals([LC.sym("P%d" % k) for k in range(3)])], [("P%d" % k, "s%d" % k) for k in range(3)])
+    for f in fns(r"scalar_mul::straus::(%s::)?Straus as .*VartimeMultiscalarMul>::optional_multiscalar_mul(::.*_impl_optional_multiscalar_mul)?$" % vec, 8):
+        n += 1
+        check("straus_vartime:" + tag(f), f, [vals([("scal", "s%d" % k) for k in range(3)]), vals([some(LC.sym("P%d" % k)) for k in range(3)])], [("P%d" % k, "s%d" % k) for k in range(3)], unwrap=True)
+    # precomputed Straus
+    for mod in (r"serial::scalar_mul::precomputed_straus::", r"vector::scalar_mul::precomputed_straus::%s::" % vec):
+        news = fns(mod + r"VartimePrecomputedStraus as .*VartimePrecomputedMultiscalarMul>::new(::.*_impl_new)?$", 4)
+        mixs = fns(mod + r"VartimePrecomputedStraus as .*VartimePrecomputedMultiscalarMul>::optional_mixed_multiscalar_mul(::.*_impl_optional_mixed_multiscalar_mul)?$", 8)
+        for nf, mf in zip(news, mixs):
+            n += 1
+            try:
+                selfv, _ = LC.run(F, nf, [vals([LC.sym("S0"), LC.sym("S1")])])
+            except Exception as e:
+                R.viol("C04.lincomb", I_("precomputed_straus:" + tag(mf)), "analysis of new() failed: %r" % (e,), F.loc(nf))
+                continue
+            check("precomputed_straus:" + tag(mf), mf, [selfv, vals([("scal", "a0"), ("scal", "a1")]), vals([("scal", "b0")]), vals([some(LC.sym("Q0"))])],
+                  [("S0", "a0"), ("S1", "a1"), ("Q0", "b0")], unwrap=True)
+    # basepoint tables: create then mul_base
+    for f in fns(r"edwards::EdwardsBasepointTable\w* as .*BasepointTable>::create$", 3):
+        name = re.search(r"(EdwardsBasepointTable\w*) as", f["path"]).group(1)
+        mb = fns(r"edwards::%s as .*BasepointTable>::mul_base$" % name, 3)
+        if not mb:
+            continue
+        n += 1
+        try:
+            tab, ipc = LC.run(F, f, [LC.sym("B")])
+        except Exception as e:
+            R.viol("C04.lincomb", I_("basepoint_table:" + name), "analysis of create() failed: %r" % (e,), F.loc(f))
+            continue
+        check("basepoint_table:" + name, mb[0], [tab, ("scal", "s")], [("B", "s")])
+    R.floor("C04.lincomb", I_("routines decided in the linear-combination domain"), n, 13 if cfg in ("simd", "notables", "ifma") else 9)
+
+
+def tag(f):
+    p = f["path"]
+    return "avx512" if "avx512" in p else ("avx2" if "avx2" in p else "serial")
